@@ -94,6 +94,10 @@ def cases(tier, seed):
            ("H=spc3-dup", 3, [0b111, 0b111, 0b111, 0b111])]
     for nm, n, rows in red:
         yield f"C10|bp|redundant|{nm}", {"kind": "bp", "codes": [(nm, n, rows, "clean-only")], "tier": tier}
+    # graphs WITH cycles and variable degree 3 / 5 (circulant (3,6)- and (5,10)-regular checks, n = 12 and 24) at large iteration counts: the message
+    # magnitudes grow geometrically with the iterations, the clean decoding must survive that
+    for nm in ("reg3x6-n12", "reg3x6-n24", "reg5x10-n24"):
+        yield f"C10|bp|regular|{nm}", {"kind": "regular", "name": nm, "tier": tier}
     for d in range(2, 6):
         yield f"C10|minsum-rule|deg={d}", {"kind": "minsum-rule", "deg": d, "tier": tier}
     for k in range(1, (8 if q else 10) + 1):
@@ -104,14 +108,54 @@ def cases(tier, seed):
 
 
 def component_of(p):
-    return {"bp": "bp", "minsum-rule": "minsum", "wagner": "wagner", "soft-rm": "soft-rm"}[p["kind"]]
+    return {"bp": "bp", "minsum-rule": "minsum", "wagner": "wagner", "soft-rm": "soft-rm", "regular": "bp"}[p["kind"]]
 
 
 def execute(p, res):
-    {"bp": bp_case, "minsum-rule": minsum_rule, "wagner": wagner_case, "soft-rm": softrm_case}[p["kind"]](p, res)
+    {"bp": bp_case, "minsum-rule": minsum_rule, "wagner": wagner_case, "soft-rm": softrm_case, "regular": regular_case}[p["kind"]](p, res)
 
 
 # ----------------------------------------------------------------------------- references
+def regular_case(p, res):
+    import torch
+    from kaira.models.fec import decoders as D
+    from kaira.models.fec import encoders as E
+    nm = p["name"]
+    half = 6 if nm.endswith("n12") else 12
+    shifts = {"reg3x6-n12": ((0, 1, 3), (0, 2, 5)), "reg3x6-n24": ((0, 1, 3), (0, 2, 7)), "reg5x10-n24": ((0, 1, 3, 7, 9), (0, 2, 5, 6, 10))}[nm]
+    H = torch.zeros(half, 2 * half)
+    for r in range(half):
+        for blk, sh in enumerate(shifts):
+            for s_ in sh:
+                H[r, blk * half + (r + s_) % half] = 1.0
+    enc = E.LDPCCodeEncoder(check_matrix=H)
+    n, k = int(enc.code_length), int(enc.code_dimension)
+    msgs = [[(i >> j) & 1 for j in range(k)] for i in (range(1 << k) if k <= 7 else [0, (1 << k) - 1] + [1 << j for j in range(k)] + [(0x5A5A5 * (j + 1)) % (1 << k) for j in range(24)])]
+    X = torch.tensor(msgs, dtype=torch.float32)
+    cw = enc(X)
+    iters_list = (10, 60, 200) if p["tier"] == "quick" else (10, 60, 200, 400)
+    for iters in iters_list:
+        decs = [("bp,atanh=1", "bp", lambda: D.BeliefPropagationDecoder(enc, bp_iters=iters))]
+        for a, b_, nz in ((1.0, 0.0, False), (0.8, 0.0, False), (1.0, 0.2, False), (1.0, 0.0, True)):
+            decs.append((f"minsum,a={a},b={b_},norm={int(nz)}", "minsum", lambda a=a, b_=b_, nz=nz: D.MinSumLDPCDecoder(enc, bp_iters=iters, scaling_factor=a, offset=b_, normalized=nz)))
+        for dname, comp, mk in decs:
+            cfg = f"{nm},{dname},it={iters}"
+            dec = mk()
+            for mag in (0.5, 4.0, 50.0):
+                try:
+                    out = dec((1 - 2 * cw) * mag)
+                except Exception as e:  # noqa: BLE001
+                    res.viol(comp, cfg, "raises", f"clean LLRs magnitude {mag}: {type(e).__name__}: {str(e)[:200]}")
+                    break
+                res.ev(len(msgs), nontrivial=len(msgs) - 1, transitions=1)
+                if tuple(out.shape) != tuple(X.shape) or not torch.equal(out.to(torch.float32), X):
+                    i = 0 if tuple(out.shape) != tuple(X.shape) else int((out.to(torch.float32) != X).any(dim=1).nonzero()[0])
+                    res.viol(comp, cfg, "clean", f"[{n},{k}] code, {iters} iterations: noise-free LLRs (magnitude {mag}) of message {msgs[i]} decoded to {out[i].tolist() if out.dim() == 2 else tuple(out.shape)}", {"mag": mag, "iters": iters})
+                    break
+    res.outcome((nm, n, k))
+    res.sample({"code": nm, "n": n, "k": k, "iterations": list(iters_list)})
+
+
 def posteriors(codewords, n, L):
     """brute-force bitwise posterior LLRs. codewords: list of ints; L: (B,n) numpy float64 -> (B,n) (inf where a bit is constant)"""
     import numpy as np
